@@ -9,16 +9,21 @@
              bound  checkout -> BOOLEAN
              basis  checkout -> first parent of its working tree
              pend   checkout -> pending merges of its working tree (sequence)
-             lrevs  revisions created by local-only commits (commit --local, commit in an unbound checkout)
+             lrevs  revisions not created by a bound commit or in the master: local-only commits (commit --local,
+                    commit in an unbound checkout) and the third branch's commits
    Every operation is a function from (W, action) to (W', outcome), built from the PHASES of the real commit
        CheckBound . BuildRevision . SetMasterTip . SetLocalTip . Finish
    so that an action can carry a FAULT: the commit is cut off after the named phase (a transport error between the
    two tip writes).  The state machine BoundBranchMC takes the phases one at a time; traces of real
    executions are judged with the same operators (BoundBranchTrace).
 
-   Actions as data: [op, c, src, fault]
-       op    "commitM" | "commit" | "commitLocal" | "commitUnbound" | "update" | "pull" | "bind" | "unbind"
-       c     the checkout acting ("M" for commitM);  src  the branch pulled from ("" otherwise)
+   A third, independent branch "F" (a sprout of the master, never bound) gives pulls a source that is neither the master
+   nor a checkout, and `pull -r N` a revision to stop at.
+
+   Actions as data: [op, c, src, fault, stop]
+       op    "commitM" | "commitF" | "commit" | "commitLocal" | "commitUnbound" | "update" | "pull" | "bind" | "unbind"
+       c     the checkout acting ("M" for commitM, "F" for commitF);  src  the branch pulled from ("" otherwise)
+       stop  pull only: the revision to stop at (pull -r), 0 = the source's tip
        fault "" | "built" | "masterset" | "localset"   last phase completed before the injected fault *)
 EXTENDS Dag, Integers
 
@@ -40,7 +45,8 @@ FilterRest(rest, heads, acc) ==
 FilterParents(P, ids) == IF ids = <<>> THEN <<>> ELSE FilterRest(Tail(ids), HeadsF(P, SeqRange(ids)), <<ids[1]>>)
 SetParents(W, c, ids) == LET f == FilterParents(W.P, ids) IN [W EXCEPT !.basis[c] = f[1], !.pend[c] = Tail(f)]
 
-Act(op, c, src, fault) == [op |-> op, c |-> c, src |-> src, fault |-> fault]
+Act(op, c, src, fault) == [op |-> op, c |-> c, src |-> src, fault |-> fault, stop |-> 0]
+PullTo(c, src, stop) == [op |-> "pull", c |-> c, src |-> src, fault |-> "", stop |-> stop]
 TreeParents(W, c) == (IF W.basis[c] = Null THEN <<>> ELSE <<W.basis[c]>>) \o W.pend[c]
 NewRev(W) == Len(W.P) + 1
 
@@ -78,6 +84,12 @@ CommitMaster(W) ==
     LET r == NewRev(W)
     IN Out([W EXCEPT !.P = Append(W.P, IF W.tip["M"] = Null THEN <<>> ELSE <<W.tip["M"]>>), !.tip["M"] = r], "ok")
 
+\* a commit in the third branch
+CommitThird(W) ==
+    LET r == NewRev(W)
+    IN Out([W EXCEPT !.P = Append(W.P, IF W.tip["F"] = Null THEN <<>> ELSE <<W.tip["F"]>>), !.tip["F"] = r,
+                     !.lrevs = @ \cup {r}], "ok")
+
 \* WorkingTree.update: a bound branch is overwritten with the master's tip (BzrBranch.update); a local tip that is not
 \* merged in the new tip is kept as a pending merge of the tree (_update_tree: only when the tree's basis has to move)
 Update(W, c) ==
@@ -86,16 +98,17 @@ Update(W, c) ==
         w1 == [W EXCEPT !.tip[c] = new]
     IN Out(IF W.basis[c] # new THEN SetParents(w1, c, <<new>> \o W.pend[c] \o old) ELSE w1, "ok")
 
-\* WorkingTree.pull(src): a bound branch first pulls src into its master (unless src is the master), then into itself;
-\* the tree follows when the local tip moved
-Pull(W, c, s) ==
+\* WorkingTree.pull(src, stop_revision): a bound branch first pulls src - up to the same stop revision - into its master
+\* (unless src is the master), then into itself; the tree follows when the local tip moved
+Pull(W, c, s, stop) ==
     LET viaMaster == W.bound[c] /\ s # "M"
-        mt == IF viaMaster THEN PullTip(W.P, W.tip["M"], W.tip[s]) ELSE W.tip["M"]
-        lt == PullTip(W.P, W.tip[c], W.tip[s])
+        goal == IF stop = Null THEN W.tip[s] ELSE stop
+        mt == IF viaMaster THEN PullTip(W.P, W.tip["M"], goal) ELSE W.tip["M"]
+        lt == PullTip(W.P, W.tip[c], goal)
         w1 == [W EXCEPT !.tip["M"] = mt]
         w2 == [w1 EXCEPT !.tip[c] = lt]
-    IN IF viaMaster /\ Diverged(W.P, W.tip["M"], W.tip[s]) THEN Out(W, "DivergedBranches")
-       ELSE IF Diverged(W.P, W.tip[c], W.tip[s]) THEN Out(w1, "DivergedBranches")       \* the master has already moved
+    IN IF viaMaster /\ Diverged(W.P, W.tip["M"], goal) THEN Out(W, "DivergedBranches")
+       ELSE IF Diverged(W.P, W.tip[c], goal) THEN Out(w1, "DivergedBranches")           \* the master has already moved
        ELSE Out(IF lt # W.tip[c] THEN SetParents(w2, c, <<lt>> \o W.pend[c]) ELSE w2, "ok")
 
 Bind(W, c) == Out([W EXCEPT !.bound[c] = TRUE], "ok")          \* BzrBranch.bind does not compare the histories
@@ -106,7 +119,8 @@ Do(W, a) == CASE a.op = "commitM" -> CommitMaster(W)
               [] a.op = "commitLocal" -> CommitLocalOnly(W, a.c)
               [] a.op = "commitUnbound" -> CommitLocalOnly(W, a.c)
               [] a.op = "update" -> Update(W, a.c)
-              [] a.op = "pull" -> Pull(W, a.c, a.src)
+              [] a.op = "commitF" -> CommitThird(W)
+              [] a.op = "pull" -> Pull(W, a.c, a.src, a.stop)
               [] a.op = "bind" -> Bind(W, a.c)
               [] a.op = "unbind" -> Unbind(W, a.c)
 Possible(W, a) == CASE a.op = "commit" -> W.bound[a.c]
@@ -152,6 +166,10 @@ LawUpdate(before, a, out, after) ==
 LawPull(before, a, out, after) ==
     (a.op = "pull" /\ before.bound[a.c] /\ out = "ok" /\ Ahead(before, a.c) = {}
      /\ (a.src = "M" \/ before.tip[a.c] = before.tip["M"])) => after.tip[a.c] = after.tip["M"]
+\* pull -r N: a checkout level with its master that can fast-forward to N ends - with its master - exactly at N
+LawPullStop(before, a, out, after) ==
+    (a.op = "pull" /\ a.stop # Null /\ before.bound[a.c] /\ out = "ok" /\ before.tip[a.c] = before.tip["M"]
+     /\ before.tip[a.c] \in Anc(before.P, a.stop)) => (after.tip[a.c] = a.stop /\ after.tip["M"] = a.stop)
 \* "a local-only commit changes only the local branch"
 LawLocalOnly(before, a, out, after) ==
     (a.op \in {"commitLocal", "commitUnbound"} /\ out = "ok") =>
@@ -163,13 +181,14 @@ LawOthersUntouched(before, a, out, after) ==
     /\ a.op \in {"bind", "unbind"} => SameTips(before, after)
 LawInStep(before, a, out, after) == InStep(before) => InStep(after)
 
-LawNames == {"commitboth", "refused", "masterfirst", "update", "pull", "localonly", "others", "instep"}
+LawNames == {"commitboth", "refused", "masterfirst", "update", "pull", "pullstop", "localonly", "others", "instep"}
 Law(n, before, a, out, after) ==
     CASE n = "commitboth" -> LawCommitBoth(before, a, out, after)
       [] n = "refused" -> LawCommitRefused(before, a, out, after)
       [] n = "masterfirst" -> LawMasterFirst(before, a, out, after)
       [] n = "update" -> LawUpdate(before, a, out, after)
       [] n = "pull" -> LawPull(before, a, out, after)
+      [] n = "pullstop" -> LawPullStop(before, a, out, after)
       [] n = "localonly" -> LawLocalOnly(before, a, out, after)
       [] n = "others" -> LawOthersUntouched(before, a, out, after)
       [] n = "instep" -> LawInStep(before, a, out, after)
